@@ -413,6 +413,10 @@ def parse_rvalue(s):
 
 
 def _parse_rvalue(s):
+    m1 = re.match(r'^\(((?:move |copy )?_\d+)\)$', s)
+    if m1:
+        # a one-element tuple is printed without a trailing comma
+        return Tuple([parse_operand(m1.group(1))])
     if s.startswith('&raw const '):
         return RefOf(parse_place(s[11:].replace('(fake) ', '')), False, True)
     if s.startswith('&raw mut '):
